@@ -203,13 +203,19 @@ Proof.
   revert H. apply sweep_eqs_noNE. intros e He x Hx. apply lookup_env_of_bound; [eapply Hc; eauto|lia].
 Qed.
 
-Lemma sweep_errs p u x : sweep p u = Err x -> x = NameError \/ x = ZeroDiv \/ x = ValueError.
+Lemma sweep_eqs_errs es : forall vs env x,
+  sweep_eqs env vs es = Err x -> x = NameError \/ x = ZeroDiv \/ x = ValueError.
 Proof.
-  unfold sweep. intros H. apply bind_err in H. destruct H as [H|[env [_ H]]]; [|discriminate].
-  revert H. generalize (env_of (g_vars p) u) (g_vars p). induction (g_eqs p) as [|e es IH]; intros env vs H.
+  induction es as [|e es IH]; intros vs env x H.
   - destruct vs; discriminate.
   - destruct vs as [|v vs]; [discriminate|]. simpl in H.
     apply bind_err in H. destruct H as [H|[y [_ H]]]; [eapply evalF_errs; eauto|eapply IH; eauto].
+Qed.
+
+Lemma sweep_errs p u x : sweep p u = Err x -> x = NameError \/ x = ZeroDiv \/ x = ValueError.
+Proof.
+  unfold sweep. intros H. apply bind_err in H. destruct H as [H|[env [_ H]]]; [|discriminate].
+  eapply sweep_eqs_errs; eauto.
 Qed.
 
 Lemma iterate_length nf p fuel : forall cnt err u v,
